@@ -167,10 +167,14 @@ private:
       if(!WrapperType::allowTargetResize)
         throw std::runtime_error("Non-matching dimensions in SU_vector assignment");
       //can resize
-      if(isinit)
+      if(isinit){
         deallocate_mem();
-      dim=proxy.suv1.dim;
-      size=proxy.suv1.size;
+        isinit=false;
+      }
+      //remain a valid, empty vector if obtaining the new storage fails
+      dim=0;
+      size=0;
+      components=nullptr;
       if(proxy.mayStealArg1()){ //if the operation is component-wise and suv1 is an rvalue
         components=proxy.suv1.components; //take suv1's backing storage
         ptr_offset=proxy.suv1.ptr_offset;
@@ -192,9 +196,11 @@ private:
         }
       }
       else{
-        alloc_aligned(dim,size,components,ptr_offset);
+        alloc_aligned(proxy.suv1.dim,proxy.suv1.size,components,ptr_offset);
         isinit=true;
       }
+      dim=proxy.suv1.dim;
+      size=proxy.suv1.size;
     }
     //evaluate in place
     proxy.compute(detail::vector_wrapper<WrapperType>{dim,components});
